@@ -23,7 +23,8 @@
 From Coq Require Import List Bool String NArith.
 Import ListNotations.
 From Mv Require Import Model.Entry Model.Fs Model.FsExt Model.Transition Model.TransitionCheck
-     Proof.FsFacts Proof.TransPrims Proof.TransitionC08 Proof.TransitionC08Top.
+     Proof.FsFacts Proof.TransPrims Proof.TransitionC08 Proof.TransitionC08Top
+     Proof.TransitionC08Check.
 Open Scope string_scope.
 Open Scope list_scope.
 
@@ -37,7 +38,7 @@ Open Scope list_scope.
    and it). *)
 Theorem c08_file_guard :
   forall (norm : path -> string -> option string) (E : env) (rn : name) (ch : cache)
-         (slm : slmode) (dfm ddm : N) (own : bool)
+         (slm : slmode) (dfm ddm : N) (own fixed : bool)
          (plan : list change) (fs0 : node) (stg : store)
          (c : change) (e0 : entry) (q : path) (x : bool) (d : string) (y : node),
     rn <> "." -> tsorted fs0 -> plan_disjoint plan -> plan_paths_ok plan ->
@@ -45,15 +46,15 @@ Theorem c08_file_guard :
     In c plan -> cold c = Some e0 -> expect_at e0 q = Some (EFile x d) ->
     get (rn :: cpath c ++ q) fs0 = Some y ->
     file_ok ch y (cpath c ++ q) d = false ->
-    get (rn :: cpath c ++ q) (tfs (final norm E rn ch slm dfm ddm own fs0 stg plan)) = Some y /\
-    problem_between (tprobs (final norm E rn ch slm dfm ddm own fs0 stg plan)) (cpath c) q.
+    get (rn :: cpath c ++ q) (tfs (final norm E rn ch slm dfm ddm own fixed fs0 stg plan)) = Some y /\
+    problem_between (tprobs (final norm E rn ch slm dfm ddm own fixed fs0 stg plan)) (cpath c) q.
 Proof. exact c08_file_guard_thm. Qed.
 
 (* The same for a symbolic link whose (in portable mode: normalised) target is
    not the expected one, or which is no symbolic link any more. *)
 Theorem c08_link_guard :
   forall (norm : path -> string -> option string) (E : env) (rn : name) (ch : cache)
-         (slm : slmode) (dfm ddm : N) (own : bool)
+         (slm : slmode) (dfm ddm : N) (own fixed : bool)
          (plan : list change) (fs0 : node) (stg : store)
          (c : change) (e0 : entry) (q : path) (t : string) (y : node),
     rn <> "." -> tsorted fs0 -> plan_disjoint plan -> plan_paths_ok plan ->
@@ -61,8 +62,8 @@ Theorem c08_link_guard :
     In c plan -> cold c = Some e0 -> expect_at e0 q = Some (ELink t) ->
     get (rn :: cpath c ++ q) fs0 = Some y ->
     link_ok norm slm y (cpath c ++ q) t = false ->
-    get (rn :: cpath c ++ q) (tfs (final norm E rn ch slm dfm ddm own fs0 stg plan)) = Some y /\
-    problem_between (tprobs (final norm E rn ch slm dfm ddm own fs0 stg plan)) (cpath c) q.
+    get (rn :: cpath c ++ q) (tfs (final norm E rn ch slm dfm ddm own fixed fs0 stg plan)) = Some y /\
+    problem_between (tprobs (final norm E rn ch slm dfm ddm own fixed fs0 stg plan)) (cpath c) q.
 Proof. exact c08_link_guard_thm. Qed.
 
 (* A directory that holds a name the expected entry does not list is not
@@ -71,7 +72,7 @@ Proof. exact c08_link_guard_thm. Qed.
    and it). *)
 Theorem c08_unknown_child :
   forall (norm : path -> string -> option string) (E : env) (rn : name) (ch : cache)
-         (slm : slmode) (dfm ddm : N) (own : bool)
+         (slm : slmode) (dfm ddm : N) (own fixed : bool)
          (plan : list change) (fs0 : node) (stg : store)
          (c : change) (e0 : entry) (q : path) (ec : list (name * entry))
          (m : meta) (cs : list (name * node)) (n : name) (y : node),
@@ -80,10 +81,10 @@ Theorem c08_unknown_child :
     In c plan -> cold c = Some e0 -> expect_at e0 q = Some (EDir ec) ->
     get (rn :: cpath c ++ q) fs0 = Some (NDir m cs) ->
     nlookup n cs = Some y -> lookup n ec = None ->
-    get (rn :: cpath c ++ q ++ [n])%list (tfs (final norm E rn ch slm dfm ddm own fs0 stg plan)) = Some y /\
+    get (rn :: cpath c ++ q ++ [n])%list (tfs (final norm E rn ch slm dfm ddm own fixed fs0 stg plan)) = Some y /\
     (exists m' cs', get (rn :: cpath c ++ q)
-                        (tfs (final norm E rn ch slm dfm ddm own fs0 stg plan)) = Some (NDir m' cs')) /\
-    problem_between (tprobs (final norm E rn ch slm dfm ddm own fs0 stg plan)) (cpath c) (q ++ [n])%list.
+                        (tfs (final norm E rn ch slm dfm ddm own fixed fs0 stg plan)) = Some (NDir m' cs')) /\
+    problem_between (tprobs (final norm E rn ch slm dfm ddm own fixed fs0 stg plan)) (cpath c) (q ++ [n])%list.
 Proof. exact c08_unknown_child_thm. Qed.
 
 (* The general form all three are instances of: whatever lies at a position
@@ -91,7 +92,7 @@ Proof. exact c08_unknown_child_thm. Qed.
    ([unauth]) and which the removal would get to ([visits]) survives. *)
 Theorem c08_guard :
   forall (norm : path -> string -> option string) (E : env) (rn : name) (ch : cache)
-         (slm : slmode) (dfm ddm : N) (own : bool)
+         (slm : slmode) (dfm ddm : N) (own fixed : bool)
          (plan : list change) (fs0 : node) (stg : store)
          (c : change) (e0 : entry) (q : path) (y : node),
     rn <> "." -> tsorted fs0 -> plan_disjoint plan -> plan_paths_ok plan ->
@@ -99,10 +100,51 @@ Theorem c08_guard :
     In c plan -> cold c = Some e0 ->
     get (rn :: cpath c ++ q) fs0 = Some y ->
     unauth norm ch slm y (cpath c) e0 q -> visits e0 q ->
-    get (rn :: cpath c ++ q) (tfs (final norm E rn ch slm dfm ddm own fs0 stg plan)) = Some y /\
-    problem_between (tprobs (final norm E rn ch slm dfm ddm own fs0 stg plan)) (cpath c) q.
+    get (rn :: cpath c ++ q) (tfs (final norm E rn ch slm dfm ddm own fixed fs0 stg plan)) = Some y /\
+    problem_between (tprobs (final norm E rn ch slm dfm ddm own fixed fs0 stg plan)) (cpath c) q.
 Proof. exact c08_guard_general. Qed.
 
+(* Soundness of the executable checker that is applied to the IMPLEMENTATION's
+   outputs (disk walk before and after core.Transition, recorded problems):
+   whatever check_c08 accepts satisfies the statement of C08 on those
+   outputs: every node the old entry of a transition does not match -- a file
+   whose metadata or cached digest differ, a link with another target,
+   something that is not the expected directory, an unknown child of an
+   expected directory -- is still there with all its metadata and content, and
+   a problem lies on the way to it. *)
+Theorem c08_check_sound :
+  forall (norm : path -> string -> option string) (slm : slmode) (rn : name) (ch : cache)
+         (pre post : node) (problems : list problem) (plan : list change),
+    check_c08 norm slm rn ch pre post problems plan = true ->
+    c08_spec norm slm rn ch pre post problems plan.
+Proof. exact check_c08_sound. Qed.
+
+(* The hypotheses are satisfiable, and the guard fires, on a concrete state:
+   root/ holds d/ with the file f (which the scan cached with mtime 5) and an
+   unknown child u; f was rewritten since (mtime 9); the plan deletes d. *)
+Definition x_meta (mode mtime : N) : meta :=
+  {| m_mode := mode; m_size := 2; m_mtime := mtime; m_fid := 7; m_dev := 1 |}.
+Definition x_fs : node :=
+  NDir (x_meta 493 1) [("root", NDir (x_meta 493 1)
+     [("d", NDir (x_meta 493 1) [("f", NFile (x_meta 420 9) "zz"); ("u", NFile (x_meta 420 3) "uu")])])].
+Definition x_cache : cache :=
+  [(["d"; "f"], {| ce_mode := 33188; ce_mtime := 5; ce_size := 2; ce_fid := 7; ce_digest := "h" |})].
+Definition x_plan : list change :=
+  [{| cpath := ["d"]; cold := Some (EDir [("f", EFile false "h")]); cnew := None |}].
+Definition x_env : env :=
+  {| oracle := fun _ => Ok; clock := fun _ => 0%N; fresh_id := fun _ => 0%N; temp_tag := fun _ => "0" |}.
+
+Example c08_guard_fires :
+  expect_at (EDir [("f", EFile false "h")]) ["f"] = Some (EFile false "h") /\
+  file_ok x_cache (NFile (x_meta 420 9) "zz") ["d"; "f"] "h" = false /\
+  let s := final (fun _ t => Some t) x_env "root" x_cache SLRaw 384 448 false false x_fs [] x_plan in
+  get ["root"; "d"; "f"] (tfs s) = Some (NFile (x_meta 420 9) "zz") /\
+  get ["root"; "d"; "u"] (tfs s) = Some (NFile (x_meta 420 3) "uu") /\
+  tprobs s = [(["d"; "u"], PK_UNKNOWN_CONTENT); (["d"; "f"], PK_REMOVE_FILE)] /\
+  check_c08 (fun _ t => Some t) SLRaw "root" x_cache x_fs (tfs s) (tprobs s) x_plan = true.
+Proof. vm_compute. repeat split. Qed.
+
+Print Assumptions c08_check_sound.
 Print Assumptions c08_file_guard.
 Print Assumptions c08_link_guard.
 Print Assumptions c08_unknown_child.
